@@ -26,6 +26,7 @@ class QuaToSM(ConvertBase):
         )
         sm.bpms = cls.cast(qua.bpms, SMBpmList, dict(offset="offset", bpm="bpm"))
         sm.chart_type = SMMapChartTypes.get_type(qua.stack().column.max() + 1)
+        sm.description = qua.difficulty_name
 
         sms = SMMapSet()
 
